@@ -64,10 +64,19 @@ func (*quietProc) Naming() string { return "zq-quiet" }
 func (*quietProc) Priority()      {}
 func (*quietProc) Order() int     { return 0 }
 
-// a user post-processor with a lifecycle of its own (pass-through callbacks)
+// what the user post-processors depend on: a plain component of its own (not a graph node)
+type pdep struct{ inited bool }
+
+func (*pdep) Naming() string { return "zx-pdep" }
+func (d *pdep) Init() error  { d.inited = true; return nil }
+
+// a user post-processor with a lifecycle of its own (pass-through callbacks) and injection points of its own: a
+// post-processor is a created component like any other, so C05 holds of it too (populated, dependencies first)
 type xproc struct {
-	e *env
-	p int
+	e   *env
+	p   int
+	Dep *pdep  `wire:""`
+	Val string `value:"${verif.noSuchKey:pv}"`
 }
 
 func (x *xproc) Naming() string { return fmt.Sprintf("zx-proc%d", x.p) }
@@ -78,7 +87,7 @@ func (x *xproc) PostProcessAfterInitialization(c any, name string) (any, error) 
 	return c, nil
 }
 func (x *xproc) Init() error {
-	x.e.emit("procInit", x.p, nil)
+	x.e.emit("procInit", x.p, map[string]any{"populated": x.Dep != nil && x.Val == "pv", "depInited": x.Dep != nil && x.Dep.inited})
 	return nil
 }
 
@@ -613,10 +622,13 @@ func runEngScenario(sc *EngScenario) []map[string]any {
 	}
 	for i, lazy := range sc.Procs {
 		if lazy {
-			ordered = append(ordered, &xprocLazy{xproc{e, i + 1}})
+			ordered = append(ordered, &xprocLazy{xproc{e: e, p: i + 1}})
 		} else {
-			ordered = append(ordered, &xproc{e, i + 1})
+			ordered = append(ordered, &xproc{e: e, p: i + 1})
 		}
+	}
+	if len(sc.Procs) > 0 {
+		ordered = append(ordered, &pdep{})
 	}
 	var err error
 	panicked := false
